@@ -203,7 +203,7 @@ Quotable(T) == LET t1 == IF T.k = "ptr" THEN T.e ELSE T IN U(t1).k \in QuotableK
 Quoted(fd) == Has(fd, "qs") /\ Quotable(fd.t)
 
 (* every JSON object key of the universe in byte order (TLC cannot compare strings) *)
-NameOrder == <<"A", "B", "C", "E", "F", "Index", "Items", "NBytes", "NF32", "NI8", "NMap", "NSl", "NStr", "NU8", "PItems",
+NameOrder == <<"A", "B", "C", "E", "F", "Index", "Items", "NBytes", "NF32", "NI8", "NMap", "NSl", "NStr", "NU8", "PItems", "Tree",
                "a", "b", "bs", "c", "cm", "e", "g", "home", "id", "k", "kids", "l", "label",
                "m", "meta", "n", "next", "origin", "owner", "p", "parents", "q", "s", "sub", "v", "w", "x">>
 SortNames(S) == SelectSeq(NameOrder, LAMBDA n : n \in S)
